@@ -301,8 +301,8 @@ func main() {
 	ncases := 130
 	workers, perWorker, concEmit := 6, 150, 300
 	if tier == "thorough" {
-		ncases = 2000
-		workers, perWorker, concEmit = 8, 1500, 3000
+		ncases = 1200
+		workers, perWorker, concEmit = 8, 1500, 2000
 	}
 
 	behaviour := "fixed"
